@@ -246,7 +246,7 @@ func ensureBuild(verbose bool) binaries {
 		must("open go.mod", "", err)
 		fmt.Fprintf(f, "\nrequire vsimrt v0.0.0\nreplace vsimrt => ../vsimrt\n")
 		if m == "vivid" {
-			fmt.Fprintf(f, "replace github.com/reugn/go-quartz => ../quartz\nreplace golang.org/x/sync => ../xsync\n")
+			fmt.Fprintf(f, "replace github.com/reugn/go-quartz => ../quartz\nreplace golang.org/x/sync => ../xsync\nrequire github.com/anishathalye/porcupine v1.3.0\n")
 		}
 		f.Close()
 	}
